@@ -9,6 +9,14 @@ NOTE = ("Trusted: z3; the shim models of numpy/pandas/h5py operations on symboli
         "Bounds and stubs per check are listed in the evidence file.")
 
 CLAIMED = {
+    "C01": ("For every sorted record stream within the bounds (<=3 chromosomes, n<=4 bins, K<=4 records, every chunking incl. empty chunks, both modes, "
+            "iterable/DataFrame/dict/dense-array input) the real create_cooler -> Cooler.pixels/matrix/info source returns exactly the records and the "
+            "(completed) matrix given; metadata documents are compared concretely.", "4/C01"),
+    "C02": ("The schema predicate (column lengths = nnz, strict order, range, triangularity, both offset indexes = run-length indexes, nbins/nchroms/sum/"
+            "bin-type/bin-size consistent) is proved on the raw store after ordered creation from every stream within the bounds, and the index builder is "
+            "decided for every block size with its 1e6 block made symbolic.", "4/C02"),
+    "C20": ("binnify is decided for symbolic chromosome lengths (width concrete per case), get_binsize/get_chromsizes for every valid bin table of each "
+            "layout with symbolic widths: a reported size implies every bin has the fixed form.", "4/C20"),
     "C03": ("For every stored matrix with n<=3 bins / K<=2 pixels (thorough n<=4,K<=3), every window, both storage modes, dense and sparse output "
             "and every chunk size, the real api.matrix / CSRReader / FillLowerRangeQuery2D source returns the slice of the full matrix; the window "
             "planner is decided for unbounded coordinates; slice spellings are decided against Python's slice resolution for unbounded bounds.", "4/C03"),
